@@ -121,26 +121,38 @@ def optCh (p : Char → Bool) : List Char → List Char
 
 def zeroB : List Char := ['0', ' ', 'B']
 
-/-- `\s+\d{4}-\d\d-\d\d` — returns what follows the date -/
-def dateAfterWs (s : List Char) : Option (List Char) :=
-  if (s.takeWhile isSpace).isEmpty then none else
-  match s.dropWhile isSpace with
-  | y1 :: y2 :: y3 :: y4 :: h1 :: m1 :: m2 :: h2 :: d1 :: d2 :: rest =>
-    if isDigit y1 && isDigit y2 && isDigit y3 && isDigit y4 && decide (h1.toNat = 45)
-        && isDigit m1 && isDigit m2 && decide (h2.toNat = 45) && isDigit d1 && isDigit d2
-    then some rest else none
-  | _ => none
+/-- one character of a class -/
+def one (p : Char → Bool) : List Char → Option (List Char)
+  | [] => none
+  | c :: s => if p c then some s else none
 
-/-- `\d+e?[\-\+]?[\.\d]* \w+` (maximal munch is exact here: every item is followed by an item
-that cannot start with a character the item itself accepts, or giving back leads to the same
-end position) — returns what follows the unit -/
+def isDash (c : Char) : Bool := decide (c.toNat = 45)
+
+/-- `\d{4}-\d\d-\d\d` — returns what follows the date -/
+def dateAt (s : List Char) : Option (List Char) :=
+  (one isDigit s).bind fun s => (one isDigit s).bind fun s => (one isDigit s).bind fun s =>
+  (one isDigit s).bind fun s => (one isDash s).bind fun s => (one isDigit s).bind fun s =>
+  (one isDigit s).bind fun s => (one isDash s).bind fun s => (one isDigit s).bind fun s => one isDigit s
+
+/-- `\s+\d{4}-\d\d-\d\d` (`\s+` is maximal: a date starts with a digit) -/
+def dateAfterWs (s : List Char) : Option (List Char) :=
+  if (s.takeWhile isSpace).isEmpty then none else dateAt (s.dropWhile isSpace)
+
+/-- position after `\d+e?[\-\+]?[\.\d]*` once `\d+` matched (maximal munch is exact here: every item is
+followed by an item that cannot start with a character the item itself accepts, or giving
+characters back leads to the same end position) -/
+def numEnd (s : List Char) : List Char :=
+  (optCh isSign (optCh isE (s.dropWhile isDigit))).dropWhile isFracCh
+
+/-- `\w+` — returns what follows -/
+def wordThen (s : List Char) : Option (List Char) :=
+  if (s.takeWhile isWord).isEmpty then none else some (s.dropWhile isWord)
+
+/-- `\d+e?[\-\+]?[\.\d]* \w+` — returns what follows the unit -/
 def sizeTok (s : List Char) : Option (List Char) :=
   if (s.takeWhile isDigit).isEmpty then none else
-  match (optCh isSign (optCh isE (s.dropWhile isDigit))).dropWhile isFracCh with
-  | sp :: s5 =>
-    if sp.toNat = 32 then
-      if (s5.takeWhile isWord).isEmpty then none else some (s5.dropWhile isWord)
-    else none
+  match numEnd s with
+  | sp :: s5 => if sp.toNat = 32 then wordThen s5 else none
   | [] => none
 
 /-- what follows the tag in the off pattern: `(0 B)\s+\d{4}-\d\d-\d\d` -/
@@ -214,10 +226,17 @@ deriving Repr, DecidableEq
 def Size.isZero (z : Size) : Bool :=
   z.digits == ['0'] && !z.e && z.sign.isNone && z.frac.isEmpty && z.unit == ['B']
 
+def eChars : Bool → List Char
+  | true => ['e']
+  | false => []
+
+def signChars : Option Bool → List Char
+  | none => []
+  | some true => ['+']
+  | some false => ['-']
+
 def printSize (z : Size) : List Char :=
-  z.digits ++ (if z.e then ['e'] else []) ++
-    (match z.sign with | none => [] | some true => ['+'] | some false => ['-']) ++
-    z.frac ++ ' ' :: z.unit
+  z.digits ++ (eChars z.e ++ (signChars z.sign ++ (z.frac ++ ' ' :: z.unit)))
 
 structure Rec where
   id   : List Char            -- digits
@@ -265,5 +284,34 @@ def recsOf : List Line → List Rec
   | [] => []
   | .snap r :: ls => r :: recsOf ls
   | .other _ :: ls => recsOf ls
+
+/-! ### Well-formed listings (what the printer is asked to print) -/
+
+def noNl (t : List Char) : Prop := ∀ c ∈ t, isNl c = false
+
+/-- a size column: `\d+ e? [-+]? [.\d]* ' ' \w+`, and only the zero size starts with `0 B` -/
+structure Size.WF (z : Size) : Prop where
+  digits_ne : z.digits ≠ []
+  digits_ok : ∀ c ∈ z.digits, isDigit c = true
+  frac_ok : ∀ c ∈ z.frac, isFracCh c = true
+  unit_ne : z.unit ≠ []
+  unit_ok : ∀ c ∈ z.unit, isWord c = true
+  zero_only : z.isZero = false → ¬ zeroB <+: printSize z
+
+/-- a snapshot record: numeric id, tag over `[\w.-]`, well-formed size, a date, no newline in the rest -/
+structure Rec.WF (r : Rec) : Prop where
+  id_ne : r.id ≠ []
+  id_ok : ∀ c ∈ r.id, isDigit c = true
+  tag_ne : r.tag ≠ []
+  tag_ok : ∀ c ∈ r.tag, isTagCh c = true
+  size_ok : r.size.WF
+  date_ok : isDigit r.y1 = true ∧ isDigit r.y2 = true ∧ isDigit r.y3 = true ∧ isDigit r.y4 = true ∧
+            isDigit r.m1 = true ∧ isDigit r.m2 = true ∧ isDigit r.d1 = true ∧ isDigit r.d2 = true
+  tail_ok : noNl r.tail
+
+/-- other lines (headers, blank lines) have no newline and do not start with a digit -/
+def Line.WF : Line → Prop
+  | .snap r => r.WF
+  | .other t => noNl t ∧ ∀ c ∈ t.head?, isDigit c = false
 
 end I2N.Show
